@@ -118,6 +118,14 @@ class ViewSystem(object):
             ctx.outcome(core.jhash(obs))
             return
         v = self.value(op)
+        # the same edit applied to a deep copy must leave the original's views alone and give the copy consistent views
+        c = copy.deepcopy(before)
+        self.apply(c, op)
+        cPw, cP, cW = _cp(c.ctrlptsw), _cp(c.ctrlpts), _cp(c.weights)
+        ctx.close(base + 'copy.edited_copy_equals_edited_original', [cPw, cP, cW], [Pw, P, W], TOL, 1.0, rc, feats)
+        ctx.close(base + 'copy.original_views_kept', [_cp(before.ctrlpts), _cp(before.weights)], [p0, w0], TOL, 1.0, rc, feats)
+        bPw = _cp(before.ctrlptsw)
+        ctx.close(base + 'copy.original_view_relation', bPw, [[x * w for x in p] + [w] for p, w in zip(p0, w0)], TOL, 1.0, rc, feats)
         if op[0] == 'ctrlpts':
             ctx.close(base + 'set_ctrlpts_view.reads_back', P, v, TOL, 1.0, rc, feats)
             ctx.close(base + 'set_ctrlpts_view.keeps_weights', W, w0, TOL, 1.0, rc, feats)
